@@ -148,6 +148,9 @@ func runWorker(bin, workDir string, spec sim.WorkerSpec, timeout time.Duration) 
 				if l.T == "hang" {
 					res.hang = true
 					res.crashRun = l.I
+					if hb, e := os.ReadFile(spec.Out + ".hangstack"); e == nil {
+						os.WriteFile(filepath.Join(root, "replays", fmt.Sprintf("hang-%s-%d.stack.txt", spec.Prop, l.I)), hb, 0o644)
+					}
 				}
 			}
 		}
